@@ -39,6 +39,16 @@ theorem C03_spec_live (A : Auto σ) (w : List UInt8) :
       (liveLen A A.start w < w.length → runA A A.start (w.take (liveLen A A.start w + 1)) = none) :=
   liveLen_spec A A.start w
 
+/-- every item of the specification is non-empty; a token is a word the automaton accepts, in the state
+the item carries (what the payload decoders of C02/C04 may rely on) -/
+theorem C03_token_sound (A : Auto σ) (w : List UInt8) : ∀ it ∈ (tokenize A w).1, ItemOk A it :=
+  tokenize_sound A w
+
+/-- the specification covers its input: the items in order followed by the pending rest are the input -/
+theorem C03_spec_cover (A : Auto σ) (w : List UInt8) :
+    (tokenize A w).1.flatMap Item.bytes ++ (tokenize A w).2 = w :=
+  tokenize_cover A w
+
 /-- the driver's check of a dumped table establishes the hypothesis of `C03_tokenize` -/
 theorem C03_table_termOk (t : Table) (h : t.termOk = true) : t.auto.TermOk :=
   Table.termOk_sound t h
